@@ -8,8 +8,9 @@ cd $WT || exit 2
 git checkout -q -- src slotted-egraphs-derive
 cp $M/demo_${P}_$N.rs tests/demo_${P}_$N.rs 2>/dev/null
 LOG=$OUT/confirm.log; : > $LOG
+FEAT=""; [ "$P" = "C07" ] && FEAT="--features explanations"
 echo "== demo without mutation" >> $LOG
-cargo test --offline --test demo_${P}_$N >> $LOG 2>&1; clean_demo=$?
+cargo test --offline $FEAT --test demo_${P}_$N >> $LOG 2>&1; clean_demo=$?
 git apply $M/m$N.diff || { echo "patch does not apply" >> $LOG; exit 2; }
 echo "== suite with mutation" >> $LOG
 mkdir -p /tmp/mut/_demos_$P; mv tests/demo_* /tmp/mut/_demos_$P/ 2>/dev/null
@@ -18,7 +19,7 @@ mv /tmp/mut/_demos_$P/* tests/ 2>/dev/null
 failed=$(grep -E "^test [^ ]+ \.\.\. FAILED" $LOG | grep -v demo_ | sort -u | grep -vE "redundancy_matching_bug" | wc -l)
 passed=$(grep -E "^test result" $LOG | grep -oE "[0-9]+ passed" | awk '{s+=$1} END {print s}')
 echo "== demo with mutation" >> $LOG
-cargo test --offline --test demo_${P}_$N >> $LOG 2>&1; mut_demo=$?
+cargo test --offline $FEAT --test demo_${P}_$N >> $LOG 2>&1; mut_demo=$?
 RUSTFLAGS="--cfg slotted_egraphs_verif" cargo build --offline --lib >> $LOG 2>&1; guard_build=$?
 git checkout -q -- src slotted-egraphs-derive
 cp $M/m$N.diff $OUT/patch.diff; cp $M/demo_${P}_$N.rs $OUT/demo.rs
